@@ -41,6 +41,7 @@ type FuncContract struct {
 	Defines      []Clause // definitional postconditions of a pure function: assumed at call sites, not checkable in the body
 	LoopInv      map[int][]Clause
 	LoopDec      map[int]ast.Expr
+	LoopStep     map[int][]Clause
 	StreamInv    map[int][]Clause
 	StreamAssume map[int][]Clause
 	AscendInv    map[int][]Clause
@@ -246,7 +247,7 @@ func (cs *Contracts) parseFile(text string, pkg *types.Package, file string) (er
 		switch {
 		case strings.HasPrefix(l, "func "):
 			sel := strings.TrimSpace(l[5:])
-			cur = &FuncContract{Selector: sel, Pkg: pkg, File: file, LoopInv: map[int][]Clause{}, LoopDec: map[int]ast.Expr{}, StreamInv: map[int][]Clause{}, StreamAssume: map[int][]Clause{}, StreamStep: map[int]map[string][]Clause{}, AscendInv: map[int][]Clause{}, AscendStep: map[int][]Clause{}, Flags: map[string]bool{}}
+			cur = &FuncContract{Selector: sel, Pkg: pkg, File: file, LoopInv: map[int][]Clause{}, LoopDec: map[int]ast.Expr{}, LoopStep: map[int][]Clause{}, StreamInv: map[int][]Clause{}, StreamAssume: map[int][]Clause{}, StreamStep: map[int]map[string][]Clause{}, AscendInv: map[int][]Clause{}, AscendStep: map[int][]Clause{}, Flags: map[string]bool{}}
 			curLemma = nil
 			key := pkg.Path() + "|" + sel
 			if _, dup := cs.Funcs[key]; dup {
@@ -295,6 +296,8 @@ func (cs *Contracts) parseFile(text string, pkg *types.Package, file string) (er
 				cur.LoopInv[n] = append(cur.LoopInv[n], mkClause(strings.SplitN(l, "invariant", 2)[1]))
 			case "decreases":
 				cur.LoopDec[n] = parseSpecExpr(strings.SplitN(l, "decreases", 2)[1])
+			case "step":
+				cur.LoopStep[n] = append(cur.LoopStep[n], mkClause(strings.SplitN(l, " step ", 2)[1]))
 			default:
 				panic("unknown loop clause: " + l)
 			}
@@ -375,6 +378,7 @@ type SpecEnv struct {
 	pkg   *types.Package
 	oldSt *BState // state old() refers to (default: entry state of the unit)
 	oldFr *Frame
+	nowEnv *SpecEnv // set inside old(): the environment of the enclosing (current-state) expression
 	unfold   int  // >0: inside the body of a recursive spec function (inner applications stay uninterpreted)
 	expandFn bool // real functions called in the expression are expanded from their SSA (lemma top level); else by contract
 }
